@@ -245,6 +245,9 @@ impl<'tcx> BorrowingParamVisitor<'tcx> {
         param_name: &str,
     ) -> ParamBorrowInfo<'tcx> {
         let mut is_borrowed = false;
+        // Optional parameters borrow exactly like their payload
+        let is_option = ty.is_option();
+        let ty = ty.unwrap_option();
         if self.used_method_lifetimes.is_empty() {
             if let hir::Type::Slice(..) = *ty {
                 return ParamBorrowInfo::TemporarySlice;
@@ -278,7 +281,7 @@ impl<'tcx> BorrowingParamVisitor<'tcx> {
                                 kind: LifetimeEdgeKind::StructLifetime(
                                     link.def_env(),
                                     def_lt,
-                                    ty.is_option(),
+                                    is_option,
                                 ),
                             };
                             method_lifetime_info.incoming_edges.push(edge);
